@@ -535,6 +535,16 @@ func (c *cluster) Canon() []byte {
 			b.U(k, c.ccOutcome[k][0], c.ccOutcome[k][1])
 		}
 	}
+	if c.cfg.CheckQuorum {
+		for _, r := range c.reps {
+			ids := make([]uint64, 0, len(r.heard))
+			for id := range r.heard {
+				ids = append(ids, id)
+			}
+			sort.Slice(ids, func(i, j int) bool { return ids[i] < ids[j] })
+			b.Sep('h').U(r.heardTerm).U(ids...)
+		}
+	}
 	for _, q := range c.reads {
 		// the incarnation counter itself is not state: only whether the request
 		// was issued to the incarnation that is running now is ever used
